@@ -245,6 +245,13 @@ def _check_attrs(case):
         for t, inner in case["wl"]:
             wl[T[t]] = {T[a]: T[b] for a, b in inner}
     expect = None if wl is None else {k: dict(v) for k, v in wl.items()}
+    backing = None
+    if wl is not None and case["vals"][0] % 2:
+        # the caller passes read-only VIEWS of dictionaries it keeps (and changes later)
+        import types
+
+        backing = wl
+        wl = {k: types.MappingProxyType(v) for k, v in backing.items()}
     # rule values: truthy/falsy values of several types must read back unchanged (identity)
     pool = [True, False, 0, 1, "yes"]
     a, b, c, d = (pool[v] if flag else bool(v % 2) for flag, v in zip(case["flags"], case["vals"]))
@@ -287,7 +294,7 @@ def _check_attrs(case):
         require({k: dict(v) for k, v in lw.edge_whitelist.items()} == expect, "readback", "edge_whitelist changed")
     if wl is not None:
         # "cannot be changed afterwards": neither through the object nor through the dictionaries passed in
-        for inner in wl.values():
+        for inner in (backing or wl).values():
             inner[T[3]] = T[2]
             inner.pop(T[0], None)
         wl[T[2]] = {T[2]: T[2]}
